@@ -151,10 +151,21 @@ class Real:
     def __init__(self):
         from pytezos.michelson.repl import Interpreter
         self.I = Interpreter()
+        self.type_failures = []
 
     def value(self, ty, val):
         from pytezos.michelson.types.base import MichelsonType
-        return MichelsonType.match(ty).from_micheline_value(val)
+        try:
+            return MichelsonType.match(ty).from_micheline_value(val)
+        except Exception as e:  # noqa: BLE001
+            st = G.strip_type(ty)
+            if st == ty:
+                raise
+            # the annotated type is refused where the same type without annotations is accepted: a failure that depends on annotations;
+            # recorded (reported by run), the round goes on with the annotation-free value
+            v = MichelsonType.match(st).from_micheline_value(val)
+            self.type_failures.append((ty, val, f'{type(e).__name__}: {e.args[-1] if e.args else ""}'))
+            return v
 
     def on_stack(self, vals, code):
         """execute `code` on a stack preset to vals (top first) -> list of trees | None on failure"""
@@ -575,6 +586,29 @@ def run(ctx):
         for ln, a, b, d in zip(lines, impl, model, descs):
             if a != b:
                 ctx.mismatch('comb-helpers', d, a, b)
+    seen_tf = set()
+    for ty_, val_, why in real.type_failures:
+        ctx.count('annotated-type-refused', why[:60])
+        if why[:60] not in seen_tf and len(seen_tf) < 3:
+            seen_tf.add(why[:60])
+            # smallest annotated sub-type that is still refused
+            best = ty_
+            def _subs(t, out):
+                out.append(t)
+                for a_ in t.get('args', []):
+                    if isinstance(a_, dict) and 'prim' in a_:
+                        _subs(a_, out)
+                return out
+            for site in _subs(ty_, []):
+                if G.strip_type(site) == site or len(json.dumps(site)) >= len(json.dumps(best)):
+                    continue
+                try:
+                    from pytezos.michelson.types.base import MichelsonType
+                    MichelsonType.match(site)
+                except Exception:  # noqa: BLE001
+                    best = site
+            ctx.violation('annotation-dependent:type-construction', f'the type {G.fmt_type(best, True)} is refused ({why[:120]}); the same type without annotations is accepted',
+                          {'type': best, 'why': why})
 
     # ================================================================= programs stream
     n_prog = 1600 if quick else 30000
